@@ -274,6 +274,19 @@ def pg (fn : String) (a : List String) : Option String := do
   | "o.c08.twin", args => some (if (args.getLast?.getD "").startsWith "same" then "holds" else "FAILS")
   | "o.c08.known", args => some (if (args.getLast?.getD "").startsWith "same" then "holds" else "FAILS")
   | "c17.fuzz", [_] => some "returned"          -- the models are total functions: every input yields a result or an error
+  | "c03.reject", _ => some "rejected"     -- C03: a cell that is no literal of its column's type fails the worksheet
+  | "o.c03.reject", args =>
+    let obs := args.getLast?.getD ""
+    some (if obs.startsWith "rejected" then "holds" else if obs.startsWith "unspec" then "unspec" else "FAILS")
+  | "c12.refer", [ids, vals, _, _, _, _] =>
+    -- C12 (refer): accepted iff every referring value occurs in the referred column (primary and merged books)
+    let idl := (ids.splitOn "/").flatMap (fun p => if p.isEmpty then [] else p.splitOn ".")
+    let vl := if vals.isEmpty then [] else vals.splitOn "."
+    some (if vl.all (fun v => idl.contains v) then "ok" else "err 2002")
+  | "o.c12.refer", [ids, vals, _, _, _, _, obs] =>
+    let idl := (ids.splitOn "/").flatMap (fun p => if p.isEmpty then [] else p.splitOn ".")
+    let vl := if vals.isEmpty then [] else vals.splitOn "."
+    some (if obs == (if vl.all (fun v => idl.contains v) then "ok" else "err 2002") then "holds" else "FAILS")
   | "c10.schema", _ => some "same"     -- C10a: the schema and the conf of a sheet and of its transposed form coincide
   | "o.c10.schema", args => some (if (args.getLast?.getD "").startsWith "same" then "holds" else "FAILS")
   | "o.c17.fuzz", [_, obs] => some (if obs == "returned" then "holds" else "FAILS")
